@@ -365,7 +365,10 @@ def _real(overrides, additional):
     return "override-missing"
   except (ConfigurationException, ValueError):
     return "malformed"
-  return snapshot_raw(cp.raw_config_parser)
+  try:
+    return snapshot_raw(cp.raw_config_parser)
+  except Exception as e:  # noqa
+    return "reading the edited parser back raises %s: %s" % (type(e).__name__, e)
 
 
 def _show(x):
